@@ -87,13 +87,10 @@ class ParallelStep(GeneticStep):
     def compute_ranges(self, population, target_size):
         """Computes the ranges for each slide, according to weights."""
         total = sum(self.weights)
-        indices = [0] + self.cumsum(
-            [int(round(w * len(population) / total, 0)) for w in self.weights],
-        )
-        ranges = list(zip(indices, indices[1:]))
-        if ranges[-1][0] < target_size:
-            ranges[-1] = (ranges[-1][0], target_size)
-        return ranges
+        # Boundaries follow the cumulative weights, so the slices are monotone and always add up to target_size.
+        indices = [0] + [int(round(cw * target_size / total, 0)) for cw in self.cumsum(self.weights)]
+        indices[-1] = target_size
+        return list(zip(indices, indices[1:]))
 
     def iterate(
         self,
@@ -116,7 +113,7 @@ class ParallelStep(GeneticStep):
                     evaluator,
                     representation,
                     random,
-                    population,
+                    npopulation,
                     end - start,
                     generation,
                 )
@@ -154,13 +151,8 @@ class ExclusiveParallelStep(ParallelStep):
         generation: int,
     ) -> Iterator[Individual]:
         npopulation: list[Individual] = list(population)
-        total = sum(self.weights)
-        indices = [0] + self.cumsum(
-            [int(round(w * len(npopulation) / total, 0)) for w in self.weights],
-        )
-        ranges = list(zip(indices, indices[1:]))
+        ranges = self.compute_ranges(npopulation, target_size)
         assert len(ranges) == len(self.steps)
-        ranges[-1] = (ranges[-1][0], target_size)  # Fix the last position
 
         for (start, end), step in zip(ranges, self.steps):
             yield from step.apply(
